@@ -53,3 +53,17 @@ W unsigned w_obj_find(const char* mk, size_t mlen, const char* lk, size_t llen, 
   if (!o[JsonString(lk, llen)].isNull()) r |= 4;                            // public API lookup
   return r;
 }
+// ---- object equality (C18), objects built with the low-level API: {"a":x,"b":y|null} vs {"a":z,K:w|null}, K = "b" or "c"
+static VariantData* addm(ObjectData& ob, ResourceManager& rm, const char* key) { StringNode* k = rm.saveString(adaptString(key)); return k ? ob.addMember(k, &rm) : nullptr; }
+W unsigned w_objeq_low(int32_t x, int32_t y, unsigned ynull, int32_t z, int32_t w, unsigned wnull, unsigned second_key_c, unsigned swap_order) {
+  arena.reset(); ResourceManager rm(&arena);
+  VariantData v1, v2; ObjectData& o1 = v1.toObject(); ObjectData& o2 = v2.toObject();
+  VariantData* m = addm(o1, rm, "a"); if (!m) return 99; m->setInteger(x, &rm);
+  m = addm(o1, rm, "b"); if (!m) return 99; if (!ynull) m->setInteger(y, &rm);
+  const char* k = second_key_c ? "c" : "b";
+  if (swap_order) { m = addm(o2, rm, k); if (!m) return 99; if (!wnull) m->setInteger(w, &rm); m = addm(o2, rm, "a"); if (!m) return 99; m->setInteger(z, &rm); }
+  else { m = addm(o2, rm, "a"); if (!m) return 99; m->setInteger(z, &rm); m = addm(o2, rm, k); if (!m) return 99; if (!wnull) m->setInteger(w, &rm); }
+  JsonVariantConst a(&v1, &rm), b(&v2, &rm);
+  unsigned r = (a == b) ? 1u : 0u; r |= (b == a) ? 2u : 0u; r |= (a != b) ? 4u : 0u;
+  return r;
+}
